@@ -18,6 +18,7 @@ import Fir.Proofs.FloatLemmas
 import Fir.Props.C06
 import Fir.Proofs.IeeeLemmas
 import Fir.Proofs.SimdU8x4Lemmas
+import Fir.Proofs.SimdVertU8Lemmas
 
 namespace Fir.C02
 open Fir
@@ -232,5 +233,32 @@ theorem u8x4_sse4_four_rows_eq_one_row (p : Nat) (hp : p < 32) (row : List Int) 
 
 theorem u8x4_sse4_four_rows_source_as_modelled : Fir.Gen.u8x4_sse4_four_rows_skeleton =
     "_mm_set1_epi32(1 << (PRECISION - 1)) ; chunks_exact(4) ; remainder() ; simd_utils::mm_load_and_clone_i16x2(k) ; simd_utils::mm_load_and_clone_i16x2(&k[2..]) ; simd_utils::loadu_si128(src_rows[0], x) ; _mm_shuffle_epi8(source, mask_lo) ; _mm_add_epi32(sss0, _mm_madd_epi16(pix, mmk_lo)) ; _mm_shuffle_epi8(source, mask_hi) ; _mm_add_epi32(sss0, _mm_madd_epi16(pix, mmk_hi)) ; simd_utils::loadu_si128(src_rows[1], x) ; _mm_shuffle_epi8(source, mask_lo) ; _mm_add_epi32(sss1, _mm_madd_epi16(pix, mmk_lo)) ; _mm_shuffle_epi8(source, mask_hi) ; _mm_add_epi32(sss1, _mm_madd_epi16(pix, mmk_hi)) ; simd_utils::loadu_si128(src_rows[2], x) ; _mm_shuffle_epi8(source, mask_lo) ; _mm_add_epi32(sss2, _mm_madd_epi16(pix, mmk_lo)) ; _mm_shuffle_epi8(source, mask_hi) ; _mm_add_epi32(sss2, _mm_madd_epi16(pix, mmk_hi)) ; simd_utils::loadu_si128(src_rows[3], x) ; _mm_shuffle_epi8(source, mask_lo) ; _mm_add_epi32(sss3, _mm_madd_epi16(pix, mmk_lo)) ; _mm_shuffle_epi8(source, mask_hi) ; _mm_add_epi32(sss3, _mm_madd_epi16(pix, mmk_hi)) ; chunks_exact(2) ; remainder() ; simd_utils::mm_load_and_clone_i16x2(k) ; simd_utils::loadl_epi64(src_rows[0], x) ; _mm_shuffle_epi8(pix, mask) ; _mm_add_epi32(sss0, _mm_madd_epi16(pix, mmk)) ; simd_utils::loadl_epi64(src_rows[1], x) ; _mm_shuffle_epi8(pix, mask) ; _mm_add_epi32(sss1, _mm_madd_epi16(pix, mmk)) ; simd_utils::loadl_epi64(src_rows[2], x) ; _mm_shuffle_epi8(pix, mask) ; _mm_add_epi32(sss2, _mm_madd_epi16(pix, mmk)) ; simd_utils::loadl_epi64(src_rows[3], x) ; _mm_shuffle_epi8(pix, mask) ; _mm_add_epi32(sss3, _mm_madd_epi16(pix, mmk)) ; first() ; _mm_set1_epi32(k as i32) ; simd_utils::mm_cvtepu8_epi32(src_rows[0], x) ; _mm_add_epi32(sss0, _mm_madd_epi16(pix, mmk)) ; simd_utils::mm_cvtepu8_epi32(src_rows[1], x) ; _mm_add_epi32(sss1, _mm_madd_epi16(pix, mmk)) ; simd_utils::mm_cvtepu8_epi32(src_rows[2], x) ; _mm_add_epi32(sss2, _mm_madd_epi16(pix, mmk)) ; simd_utils::mm_cvtepu8_epi32(src_rows[3], x) ; _mm_add_epi32(sss3, _mm_madd_epi16(pix, mmk)) ; _mm_srai_epi32::<PRECISION>(sss0) ; _mm_srai_epi32::<PRECISION>(sss1) ; _mm_srai_epi32::<PRECISION>(sss2) ; _mm_srai_epi32::<PRECISION>(sss3) ; _mm_packs_epi32(sss0, sss0) ; _mm_packs_epi32(sss1, sss1) ; _mm_packs_epi32(sss2, sss2) ; _mm_packs_epi32(sss3, sss3) ; _mm_cvtsi128_si32(_mm_packus_epi16(sss0, sss0)) ; _mm_cvtsi128_si32(_mm_packus_epi16(sss1, sss1)) ; _mm_cvtsi128_si32(_mm_packus_epi16(sss2, sss2)) ; _mm_cvtsi128_si32(_mm_packus_epi16(sss3, sss3))" := by rfl
+
+/-! ### the SSE4.1 vertical pass for 8-bit components (U8, U8x2, U8x3, U8x4), lane by lane
+
+    `Fir.Model.SimdVertU8` follows `vert_convolution_into_one_row` of src/convolution/vertical_u8/sse4.rs: rows are taken
+    two at a time, interleaved with `_mm_unpacklo/hi_epi8`, widened by unpacking with zero, multiplied with a cloned
+    coefficient pair by `_mm_madd_epi16`; an odd last row goes through `_mm_set1_epi32(k as i32)`; the destination
+    row is cut into chunks of 32, 8 and 4 components (the rest is the portable code).  `dotV rows ks x` is what the
+    portable kernel accumulates for component `x`. -/
+
+theorem vert_u8_sse4_chunk32_eq_portable (p : Nat) (hp : p < 32) (rows : List (List Int)) (ks : List Int)
+    (h : ks.length ≤ rows.length) (x : Nat) :
+    Fir.SimdVertU8.chunk32 p rows ks x = (List.range 32).map fun j => clip8 (2 ^ (p - 1) + Fir.SimdVertU8.dotV rows ks (x + j)) p :=
+  Fir.Proofs.vert_u8_sse4_chunk32_eq p hp rows ks h x
+
+theorem vert_u8_sse4_chunk8_eq_portable (p : Nat) (hp : p < 32) (rows : List (List Int)) (ks : List Int)
+    (h : ks.length ≤ rows.length) (x : Nat) :
+    Fir.SimdVertU8.chunk8 p rows ks x = (List.range 8).map fun j => clip8 (2 ^ (p - 1) + Fir.SimdVertU8.dotV rows ks (x + j)) p :=
+  Fir.Proofs.vert_u8_sse4_chunk8_eq p hp rows ks h x
+
+theorem vert_u8_sse4_chunk4_eq_portable (p : Nat) (hp : p < 32) (rows : List (List Int)) (ks : List Int)
+    (h : ks.length ≤ rows.length) (x : Nat) :
+    Fir.SimdVertU8.chunk4 p rows ks x = (List.range 4).map fun j => clip8 (2 ^ (p - 1) + Fir.SimdVertU8.dotV rows ks (x + j)) p :=
+  Fir.Proofs.vert_u8_sse4_chunk4_eq p hp rows ks h x
+
+/-- the call sequence of the kernel in the source is the one modelled -/
+theorem vert_u8_sse4_source_as_modelled : Fir.Gen.vert_u8_sse4_skeleton =
+    "_mm_set1_epi32(1 << (PRECISION - 1)) ; chunks_exact_mut(32) ; chunks_exact(2) ; remainder() ; iter_2_rows(y_start, max_rows) ; simd_utils::mm_load_and_clone_i16x2(two_coeffs) ; simd_utils::loadu_si128(components1, src_x) ; simd_utils::loadu_si128(components2, src_x) ; _mm_unpacklo_epi8(source1, source2) ; _mm_unpacklo_epi8(source, _mm_setzero_si128()) ; _mm_add_epi32(sss0, _mm_madd_epi16(pix, mmk)) ; _mm_unpackhi_epi8(source, _mm_setzero_si128()) ; _mm_add_epi32(sss1, _mm_madd_epi16(pix, mmk)) ; _mm_unpackhi_epi8(source1, source2) ; _mm_unpacklo_epi8(source, _mm_setzero_si128()) ; _mm_add_epi32(sss2, _mm_madd_epi16(pix, mmk)) ; _mm_unpackhi_epi8(source, _mm_setzero_si128()) ; _mm_add_epi32(sss3, _mm_madd_epi16(pix, mmk)) ; simd_utils::loadu_si128(components1, src_x + 16) ; simd_utils::loadu_si128(components2, src_x + 16) ; _mm_unpacklo_epi8(source1, source2) ; _mm_unpacklo_epi8(source, _mm_setzero_si128()) ; _mm_add_epi32(sss4, _mm_madd_epi16(pix, mmk)) ; _mm_unpackhi_epi8(source, _mm_setzero_si128()) ; _mm_add_epi32(sss5, _mm_madd_epi16(pix, mmk)) ; _mm_unpackhi_epi8(source1, source2) ; _mm_unpacklo_epi8(source, _mm_setzero_si128()) ; _mm_add_epi32(sss6, _mm_madd_epi16(pix, mmk)) ; _mm_unpackhi_epi8(source, _mm_setzero_si128()) ; _mm_add_epi32(sss7, _mm_madd_epi16(pix, mmk)) ; first() ; iter_rows(y_last) ; _mm_set1_epi32(k as i32) ; simd_utils::loadu_si128(components, src_x) ; _mm_unpacklo_epi8(source1, _mm_setzero_si128()) ; _mm_unpacklo_epi8(source, _mm_setzero_si128()) ; _mm_add_epi32(sss0, _mm_madd_epi16(pix, mmk)) ; _mm_unpackhi_epi8(source, _mm_setzero_si128()) ; _mm_add_epi32(sss1, _mm_madd_epi16(pix, mmk)) ; _mm_unpackhi_epi8(source1, _mm_setzero_si128()) ; _mm_unpacklo_epi8(source, _mm_setzero_si128()) ; _mm_add_epi32(sss2, _mm_madd_epi16(pix, mmk)) ; _mm_unpackhi_epi8(source, _mm_setzero_si128()) ; _mm_add_epi32(sss3, _mm_madd_epi16(pix, mmk)) ; simd_utils::loadu_si128(components, src_x + 16) ; _mm_unpacklo_epi8(source1, _mm_setzero_si128()) ; _mm_unpacklo_epi8(source, _mm_setzero_si128()) ; _mm_add_epi32(sss4, _mm_madd_epi16(pix, mmk)) ; _mm_unpackhi_epi8(source, _mm_setzero_si128()) ; _mm_add_epi32(sss5, _mm_madd_epi16(pix, mmk)) ; _mm_unpackhi_epi8(source1, _mm_setzero_si128()) ; _mm_unpacklo_epi8(source, _mm_setzero_si128()) ; _mm_add_epi32(sss6, _mm_madd_epi16(pix, mmk)) ; _mm_unpackhi_epi8(source, _mm_setzero_si128()) ; _mm_add_epi32(sss7, _mm_madd_epi16(pix, mmk)) ; _mm_srai_epi32::<PRECISION>(sss0) ; _mm_srai_epi32::<PRECISION>(sss1) ; _mm_srai_epi32::<PRECISION>(sss2) ; _mm_srai_epi32::<PRECISION>(sss3) ; _mm_srai_epi32::<PRECISION>(sss4) ; _mm_srai_epi32::<PRECISION>(sss5) ; _mm_srai_epi32::<PRECISION>(sss6) ; _mm_srai_epi32::<PRECISION>(sss7) ; _mm_packs_epi32(sss0, sss1) ; _mm_packs_epi32(sss2, sss3) ; _mm_packus_epi16(sss0, sss2) ; _mm_storeu_si128(dst_ptr, sss0) ; _mm_packs_epi32(sss4, sss5) ; _mm_packs_epi32(sss6, sss7) ; _mm_packus_epi16(sss4, sss6) ; _mm_storeu_si128(dst_ptr, sss4) ; into_remainder() ; chunks_exact_mut(8) ; chunks_exact(2) ; remainder() ; iter_2_rows(y_start, max_rows) ; simd_utils::mm_load_and_clone_i16x2(two_coeffs) ; simd_utils::loadl_epi64(components1, src_x) ; simd_utils::loadl_epi64(components2, src_x) ; _mm_unpacklo_epi8(source1, source2) ; _mm_unpacklo_epi8(source, _mm_setzero_si128()) ; _mm_add_epi32(sss0, _mm_madd_epi16(pix, mmk)) ; _mm_unpackhi_epi8(source, _mm_setzero_si128()) ; _mm_add_epi32(sss1, _mm_madd_epi16(pix, mmk)) ; first() ; iter_rows(y_last) ; _mm_set1_epi32(k as i32) ; simd_utils::loadl_epi64(components, src_x) ; _mm_unpacklo_epi8(source1, _mm_setzero_si128()) ; _mm_unpacklo_epi8(source, _mm_setzero_si128()) ; _mm_add_epi32(sss0, _mm_madd_epi16(pix, mmk)) ; _mm_unpackhi_epi8(source, _mm_setzero_si128()) ; _mm_add_epi32(sss1, _mm_madd_epi16(pix, mmk)) ; _mm_srai_epi32::<PRECISION>(sss0) ; _mm_srai_epi32::<PRECISION>(sss1) ; _mm_packs_epi32(sss0, sss1) ; _mm_packus_epi16(sss0, sss0) ; _mm_storel_epi64(dst_ptr, sss0) ; into_remainder() ; chunks_exact_mut(4) ; chunks_exact(2) ; remainder() ; iter_2_rows(y_start, max_rows) ; simd_utils::mm_load_and_clone_i16x2(two_coeffs) ; simd_utils::mm_cvtsi32_si128_from_u8(components1, src_x) ; simd_utils::mm_cvtsi32_si128_from_u8(components2, src_x) ; _mm_unpacklo_epi8(source1, source2) ; _mm_unpacklo_epi8(source, _mm_setzero_si128()) ; _mm_add_epi32(sss, _mm_madd_epi16(pix, mmk)) ; first() ; iter_rows(y_last) ; simd_utils::mm_cvtepu8_epi32_from_u8(components, src_x) ; _mm_set1_epi32(k as i32) ; _mm_add_epi32(sss, _mm_madd_epi16(pix, mmk)) ; _mm_srai_epi32::<PRECISION>(sss) ; _mm_packs_epi32(sss, sss) ; _mm_cvtsi128_si32(_mm_packus_epi16(sss, sss)) ; into_remainder() ; native::convolution_by_u8(src_view, normalizer, 1 << (PRECISION - 1), dst_u8, src_x, y_start, coeffs,)" := by rfl
 
 end Fir.C02
